@@ -57,8 +57,13 @@ def build_harness():
         pass
     rc, out = sh(["cargo", "build", "--release", "--offline", "-q"], cwd=HARNESS_DIR, timeout=1800)
     if rc != 0:
+        # the crate itself still builds?  then a public item the harness drives changed shape: the correspondence cannot be
+        # run any more, which is a broken obligation (reported as such), not a failure of the check to start
+        rc2, out2 = sh(["cargo", "build", "--offline", "-q", "--target-dir", os.path.join(WORK, "cli-target")], cwd=REPO, timeout=1800)
+        if rc2 == 0:
+            raise Broken("the correspondence harness no longer compiles against the crate's public items", out[-1500:])
         print(out[-4000:])
-        print("ERROR: harness / repository does not compile")
+        print("ERROR: the repository does not compile")
         sys.exit(2)
 
 def bridge_coverage():
